@@ -416,3 +416,18 @@ func vh_lemma_uint384_div1e19() {
 	sq, sr := sum_uint384_div1e19(n)
 	check(q == sq && r == sr, "uint384.div1e19 differs from its contract")
 }
+
+// ---------------------------------------------------------------- compose / decompose round trip
+// Used by the executor: decompose of a Decimal that was built by compose(neg, sig, exp) yields
+// (sig, exp) when 0 <= exp <= 12287 and sig <= 5*2^111-1 (both are obligations at the call).
+func vh_lemma_compose() {
+	neg := nondetBool("neg")
+	sig := nd128("s")
+	exp := nondetI16("exp")
+	assume(exp >= 0 && exp <= maxBiasedExponent && z128(sig).Le(zMAX()))
+	d := compose(neg, sig, exp)
+	s2, e2 := d.decompose()
+	check(s2 == sig && e2 == exp, "compose/decompose round trip broken")
+	check(d.Signbit() == neg && !d.isSpecial() && !d.IsNaN() && !d.isInf(), "compose produced a wrong sign or a special value")
+	check(d.IsZero() == (sig[0]|sig[1] == 0), "IsZero disagrees with the coefficient")
+}
